@@ -808,6 +808,7 @@ class EpochRules:
                     sink.emit('C20.UAF', 'ok' if not later else 'violated', 'no access to a node after it was deleted', self.loc(f, e['line']),
                               '' if not later else 'access at line %s' % later[0].get('line'))
         self.walk_invariant(rm)
+        self.walk_end_rule(rm)
         # the walk compares every node with the protected epoch / node bits *current at that step*: a closure that copied one of
         # these variables when it was created and is used after the variable moved on decides on a stale value
         for fq in (rm, self.F['CollectProtectedEpochs'], self.F['ForwardGlobalEpoch']):
@@ -933,6 +934,27 @@ class EpochRules:
         if not checked:
             sink.unsup('C20.WALKINV', 'RemoveOutDatedLists', self.loc(rm), 'no general iteration of the walk found')
         self.keep_rule(rm, cursors)
+
+    def walk_end_rule(self, rm):
+        """C20.WALK: the retirement walk leaves its loop only at the end of the chain.  Running out of protected epochs is exactly the
+        situation in which every remaining node (but the initial one) is out-dated: a walk that stops there keeps them for ever."""
+        sink = self.sink
+        n = 0
+        for p in self.paths(rm):
+            if p.end != 'return' or not any(e['kind'] == 'loop_head' for e in p.events):
+                continue
+            n += 1
+            ends = [e for e in p.events if e['kind'] == 'cond' and isinstance(e['value'], tuple) and e['value'][0] == 'op' and e['value'][1] in ('!=', '==') and
+                    ('->' + self.nextf) in show(e['value']) and any(is_const(x) and x[1] == 0 for x in e['value'][2:4]) and
+                    ((e['value'][1] == '!=' and not e['outcome']) or (e['value'][1] == '==' and e['outcome']))]
+            last_cond = [e for e in p.events if e['kind'] == 'cond']
+            good = bool(ends) and (not last_cond or ends[-1]['seq'] >= max(e['seq'] for e in last_cond if e.get('line') == ends[-1].get('line')))
+            sink.emit('C20.WALK', 'ok' if good else 'violated', 'the retirement walk ends only at the end of the chain', self.loc(rm, p.ret_line),
+                      'left on node->next == nullptr' if good else
+                      'a path leaves the walk although the cursor still has a successor: the nodes behind it are never examined again by this call; when the protected '
+                      'epochs are exhausted these are exactly the out-dated ones, and the chain grows by one node per %s epochs' % self.consts.get(self.em['name'] + '::kCapacity', 256))
+        if not n:
+            sink.unsup('C20.WALK', 'RemoveOutDatedLists', self.loc(rm), 'no returning path through the walk loop')
 
     def rv_of(self, p, path):
         st = getattr(p, 'store', None) or {}
